@@ -31,6 +31,15 @@ CLAIMS = {
          "the model of DecodeSecret (TrimSpace, alphabet check, re-padding, ToUpper, a literal transcription of Go's base32 decode loop) returns exactly those bytes; the packing formulas are proved to be bit regrouping by finite sweeps (<= 2^15 cases each) lifted to all inputs; "
          "hence all six entry points see the same key; characters outside the alphabet and lengths 1,3,6 mod 8 are rejected.",
          "Padding in the middle is covered by the correspondence (malformed stream), not by a theorem. Unicode white space is trimmed by the model exactly as strings.TrimSpace does; the spelling relation of the theorem speaks of ASCII white space.", "6 C07"),
+ 'C08': ("Unbounded theorem over every byte stream and every history of calls: each successful RandomSecret result is the unpadded upper-case RFC 4648 text of exactly 20/32/64 consecutive "
+         "stream bytes starting where the previous call stopped (each byte used once), contains only A-Z2-7, and DecodeSecret maps it back to those bytes; an unsupported hash yields an error and reads nothing.",
+         "The random source is an explicit stream; that crypto/rand.Reader's default is the operating system's CSPRNG is the Go runtime's and is not modelled (partial there). The harness substitutes rand.Reader by a recording stream and compares sequential histories with the model, interleaved ones by multiset of recorded reads.", "6 C08"),
+ 'C13': ("Unbounded theorems: every validation model (HOTP, TOTP, OCRA) returns (true,nil) or (false,error) for all inputs; the error of a validation step does not depend on the HMAC function (hence not on the expected code); "
+         "errors produced after the HMAC are the two sentinels, whose texts (regenerated from errs.go) contain no decimal digit.",
+         "The secret-disclosure clause is tied by the correspondence's scan of real error strings for the secret (text and raw) and every in-window code; it is a test, not a theorem.", "6 C13"),
+ 'C17': ("Unbounded theorems per helper: To8ByteBigEndian = 8-byte big-endian (value recovered), decimal parsing = that encoding of the value with rejection of empty/non-digit/overflow, LeftPadHex length and content, hex timestamps 8 bytes, "
+         "hex request fields field-wise with first-error, decimal question = RFC 6287 conversion, and end to end the OCRA code from a numeric question equals the RFC value.",
+         "strconv, encoding/hex and math/big are transcribed as the functions the helpers use and compared on every run.", "6 C17"),
  'C14': ("Unbounded theorems (iff): SuiteConfig.Validate succeeds exactly for usable suites and OCRAInput.Validate exactly for admissible inputs (the property's sentence as a Prop); "
          "generation/validation get past admission exactly under both.",
          "Out-of-enum challenge formats / password hashes are outside the property; the model still mirrors the code there and the harness compares them.", "6 C14"),
